@@ -308,7 +308,7 @@ void exec_matcher(const ExecOp& op, Outcome& out)
             else
             {
                 ctpg::buffers::string_buffer buf{ std::string(op.input) };
-                simrt::set_buffer(buf.begin().base(), int64_t(n));
+                simrt::set_buffer(n ? &*buf.begin() : nullptr, int64_t(n));
                 match_with_stream(m, op, buf, out);
             }
         }
